@@ -730,3 +730,43 @@ var _ = sort.Strings
 
 func TestPropConcurrent(t *testing.T)   { vt.Check(t, "concurrent", genCase, execCase) }
 func TestReplayConcurrent(t *testing.T) { vt.Replay(t, "concurrent", execCase) }
+
+// ---------------------------------------------------------------------------
+// Probe of the catalogued finding D5(a) with a fixed case and a fixed schedule:
+// a flat search takes its snapshot, an insert batch then commits completely
+// (storage and cache), and only then does the search touch the shared cache,
+// which now names nodes its snapshot does not contain. The random schedules of
+// the main job meet D5 in most but not in all runs; the probe makes the
+// KNOWN-FINDING line independent of that. If the defect is ever repaired the
+// probe simply stops observing it.
+func TestPropD5Probe(t *testing.T) {
+	rec := vt.R()
+	schema := models.IndexSchema{gen.PFlat: {Type: models.IndexTypeVectorFlat, VectorFlat: &models.IndexVectorFlatParameters{VectorSize: 2, DistanceMetric: models.DistanceEuclidean}}}
+	pt := func(i int) model.Point {
+		var id uuid.UUID
+		id[0], id[6], id[8], id[15] = byte(i), 0x40, 0x80, 1
+		return model.Point{Id: id, Doc: model.Doc{gen.PFlat: []float32{float32(i), 1}}}
+	}
+	c := Case{Schema: schema, Regime: "R3", Warmth: "warm",
+		Prefix:    []gen.Step{{Kind: "insert", Points: []model.Point{pt(1), pt(2), pt(3)}}},
+		Writer:    []gen.Step{{Kind: "insert", Points: []model.Point{pt(4), pt(5), pt(6)}}},
+		Searchers: [][]models.Query{{{Property: gen.PFlat, VectorFlat: &models.SearchVectorFlatOptions{Vector: []float32{0, 0}, Operator: models.OperatorNear, Limit: 10}}}},
+		Schedule:  []int{0, 0, 1, 1}}
+	// the schedule only orders the pause points; whether the search reaches the cache after the cache
+	// commit still depends on the runtime in a minority of runs, so the probe repeats until it has seen it
+	for trial := 1; trial <= 40; trial++ {
+		rec.Eval()
+		res := execCase(c)
+		if res.Err != nil {
+			p := vt.WriteReplay("d5probe", c, res.Err)
+			rec.Violation("d5probe", p, res.Err.Error())
+			t.Fatalf("%v", res.Err)
+		}
+		rec.Count("d5_probe_runs", 1)
+		if rec.KnownCount() > 0 {
+			rec.Max("d5_probe_trials_until_observed", int64(trial))
+			return
+		}
+	}
+	rec.Count("d5_not_observed_by_probe", 1)
+}
